@@ -51,6 +51,9 @@ type Search struct {
 
 func (u Search) Name() string { return u.Sc.Name() }
 
+// Label is name + parameters (what `--only` matches against).
+func (u Search) Label() string { return fmt.Sprintf("%s %v", u.Sc.Name(), u.Sc.Params()) }
+
 func (u Search) Run(rc RunCtx) UnitResult {
 	r, err := engine.Run(u.Sc, engine.Config{MaxDepth: u.Depth, Workers: rc.Workers, Deadline: rc.Deadline})
 	if err != nil {
